@@ -33,6 +33,9 @@ def apply(b, kw):
         return kw[b[1]]
     if op == "sum":
         return sum(kw[p] for p in b[1:])
+    if op == "sum2":  # two outputs: (sum, sum + 1)
+        v = sum(kw[p] for p in b[1:])
+        return (v, v + 1)
     if op == "append_mut":  # mutates the received list, returns a snapshot of it
         kw[b[1]].append(kw[b[2]])
         return tuple(kw[b[1]])
